@@ -142,11 +142,21 @@ SCRIPTS['send-during-callback'] = dict(script='deq.timer.unlocked:set:parked,deq
 
 
 def run_timing(job):
-    flavour, seed, dm, engine, outdir = job
+    flavour, seed, dm, engine, outdir = job[:5]
     rng = random.Random(seed)
     xml, sends, cancels, nbad, rep, baddelays = timing_chart(rng, dm)
+    block = rng.choice([20, 20, 3000])
+    if len(job) > 5 and job[5] == 'errwake':
+        # nothing but an undeliverable delayed send (or a delayed #_internal one) and a much later external one, stepper asleep in step(3000):
+        # what the timer thread puts into the internal queue has to wake it and is processed long before the external event is due
+        bd = rng.randint(20, 80); late = rng.randint(500, 800); kind = rng.choice(['#_nosuchinvoke', '#_parent', '#_internal'])
+        first = ('<send event="undeliverable1" delay="%dms" target="%s"/>' % (bd, kind)) if kind != '#_internal' else ('<send event="d1" delay="%dms" target="#_internal"/>' % bd)
+        xml = ('<scxml xmlns="http://www.w3.org/2005/07/scxml" version="1.0" datamodel="%s">\n <state id="a">\n  <onentry>\n   %s\n   <send event="d0" delay="%dms"/>\n  </onentry>\n'
+               '  <transition event="d"/>\n  <transition event="error.communication"><log label="ERRCOMM"/></transition>\n </state>\n</scxml>') % (dm, first, late)
+        sends = [{'ev': 'd0', 'delay_ms': late, 'id': None, 'form': None, 'target': None}] + ([{'ev': 'd1', 'delay_ms': bd, 'id': None, 'form': None, 'target': '#_internal'}] if kind == '#_internal' else [])
+        cancels = []; rep = None; baddelays = [bd] if kind != '#_internal' else []; nbad = len(baddelays); block = 3000
     f = os.path.join(outdir, 't%d.scxml' % seed); open(f, 'w').write(xml)
-    r = thr.run_with_stacks(flavour, 'timers', f, timeout=40, seed=seed, engine=engine, quiet=700, block=rng.choice([20, 20, 3000]), **{'yield': rng.choice([0, 100, 400])})
+    r = thr.run_with_stacks(flavour, 'timers', f, timeout=40, seed=seed, engine=engine, quiet=700, block=block, **{'yield': rng.choice([0, 100, 400])})
     rec = {'job': list(job[:4]), 'bad': [], 'deliveries': 0, 'xml': xml}
     if r['timeout']:
         rec['bad'].append(('hang', {'stacks': [s[-3500:] for s in r.get('stacks', [])]})); return rec
@@ -240,6 +250,7 @@ def main(tier, replay):
     rng = chk.rng
     nt = 60 if tier == 'quick' else 600
     tjobs = [(('plain', 'tsan', 'asan')[i % 3], chk.seed * 100000 + i, ('lua', 'promela')[i % 2], ('large', 'fast')[(i // 2) % 2], outdir) for i in range(nt)]
+    tjobs += [(('plain', 'tsan', 'asan')[i % 3], chk.seed * 100000 + 50000 + i, ('lua', 'promela')[i % 2], ('large', 'fast')[(i // 2) % 2], outdir, 'errwake') for i in range(12 if tier == 'quick' else 150)]
     sigs = set(); deliveries = 0
     for rec in common.pmap(run_timing, tjobs, workers=min(12, common.NPROC)):
         chk.count(); deliveries += rec['deliveries']; sigs |= rec.get('sigs', set())
